@@ -78,6 +78,9 @@ def rich_pool(rng):
     pool["M0"] = ["g/m", [["string", "a"]]]
     pool["M1"] = ["g/m", [["string", "b"], ["varint", "c"]]]
     pool["M2"] = ["g/other", [["uint32", "d"]]]
+    # names that differ only in "/" versus "_" (they map to the same Python class name) with identical fields
+    pool["S0"] = ["s/tw", [["string", "v"], ["varint", "n"]]]
+    pool["S1"] = ["s_tw", [["string", "v"], ["varint", "n"]]]
     # legal field-less types, one of them under the name of a type that has fields
     pool["Z0"] = ["z/marker", []]
     pool["Z1"] = ["t/a", []]
@@ -173,7 +176,7 @@ def generate(rng, tier, index):
         if actors["w%d" % i] == "json-faulty":
             fail_calls["w%d" % i] = sorted(set(rng.randrange(0, 12) for _ in range(rng.choice([1, 1, 2]))))
     keys = sorted(pool)
-    flat = [k for k in keys if k[0] in "ABXERZ"]
+    flat = [k for k in keys if k[0] in "ABXERZS"]
     holders = [k for k in keys if k[0] == "H"]
     focus = rng.choice(["collide", "nested", "grouped", "mixed", "mixed"])
     n_ops = rng.choice([2, 3, 4, 6, 9, 14, 25, 40]) if tier != "quick" else rng.choice([2, 3, 4, 5, 7, 10, 16])
